@@ -147,3 +147,71 @@ func TestC10_LongChains(t *testing.T) {
 		cl.done(true)
 	})
 }
+
+// TestC10_AbsorbedWeights: merges between sketches whose total weights are more than 53 binary orders of magnitude
+// apart (old content decayed by 2^-60 meeting fresh unit weights; unit weights meeting weights of 2^54..2^70): the
+// total is then not representable and is not judged, but the exact minimum and maximum are those of everything
+// absorbed, whichever side is the light one, and every quantile answer lies between them.
+func TestC10_AbsorbedWeights(t *testing.T) {
+	rapid.Check(t, func(t *rapid.T) {
+		cl := newCase("C10")
+		cl.label("absorbed-weights")
+		m, _ := mapping.NewLogarithmicMapping(0.01)
+		prov := rapid.SampledFrom([]store.Provider{store.DenseStoreConstructor, store.SparseStoreConstructor, store.BufferedPaginatedStoreConstructor}).Draw(t, "provider")
+		mk := func() *ddsketch.DDSketchWithExactSummaryStatistics { return ddsketch.NewDDSketchWithExactSummaryStatistics(m, prov) }
+		mn, mx := math.Inf(1), math.Inf(-1)
+		fill := func(s *ddsketch.DDSketchWithExactSummaryStatistics, w float64, label string) {
+			for i, n := 0, rapid.IntRange(1, 5).Draw(t, label+"n"); i < n; i++ {
+				v := rapid.SampledFrom([]float64{-3, 5, 7, 10, 0.5, -77, 1, 1000, 0}).Draw(t, label+"v")
+				if err := s.AddWithCount(v, w); err != nil {
+					t.Fatalf("C10 absorbed: AddWithCount(%v,%v): %v", v, w, err)
+				}
+				mn, mx = math.Min(mn, v), math.Max(mx, v)
+			}
+		}
+		light, heavy := mk(), mk()
+		shape := rapid.IntRange(0, 2).Draw(t, "shape")
+		switch shape {
+		case 0: // unit weights against huge weights
+			fill(light, 1, "l")
+			fill(heavy, math.Ldexp(1, rapid.IntRange(54, 70).Draw(t, "hexp")), "h")
+		case 1: // decayed content against fresh unit weights
+			fill(light, 1, "l")
+			if err := light.Reweight(math.Ldexp(1, -rapid.IntRange(54, 80).Draw(t, "decay"))); err != nil {
+				t.Fatalf("C10 absorbed: Reweight: %v", err)
+			}
+			fill(heavy, 1, "h")
+		default: // fractional weights against large integers
+			fill(light, 0.25, "l")
+			fill(heavy, 0x1p53*float64(rapid.IntRange(1, 9).Draw(t, "hm")), "h")
+		}
+		recv, arg := light, heavy
+		if rapid.Bool().Draw(t, "heavyreceives") {
+			recv, arg = heavy, light
+			cl.label("absorbed:receiver-heavy")
+		} else {
+			cl.label("absorbed:receiver-light")
+		}
+		cl.logf("C10 absorbed weights shape=%d", shape)
+		if rapid.Bool().Draw(t, "viadecode") {
+			var b []byte
+			arg.Encode(&b, false)
+			if err := recv.DecodeAndMergeWith(b); err != nil {
+				t.Fatalf("C10 absorbed: DecodeAndMergeWith: %v", err)
+			}
+		} else if err := recv.MergeWith(arg); err != nil {
+			t.Fatalf("C10 absorbed: MergeWith: %v", err)
+		}
+		gmin, e1 := recv.GetMinValue()
+		gmax, e2 := recv.GetMaxValue()
+		if e1 != nil || e2 != nil || gmin != mn || gmax != mx {
+			t.Fatalf("C10 absorbed (shape %d): exact min/max (%v,%v) errors (%v,%v), everything absorbed spans [%v,%v]", shape, gmin, gmax, e1, e2, mn, mx)
+		}
+		for _, q := range []float64{0, 0.25, 0.5, 0.75, 1} {
+			if y, err := recv.GetValueAtQuantile(q); err != nil || y < mn || y > mx {
+				t.Fatalf("C10 absorbed: quantile %v = %v (%v), outside [%v,%v]", q, y, err, mn, mx)
+			}
+		}
+		cl.done(true)
+	})
+}
